@@ -43,11 +43,16 @@ def build(scen, extra=None, flavour=None):
             env["VRT_SEMFLAVOUR"] = flavour
         env["VERIF_REPO"] = REPO
         src = os.path.join(HARNESS, "scen", scen + ".c")
+        exe = os.path.join(hout, scen)
+        sstamp = exe + ".fp"
+        if "VRT_REBUILD" not in env and os.path.exists(exe) and os.path.exists(sstamp) and open(sstamp).read() == fp:
+            return exe, None      # up to date: never relink a binary another check may be executing
         rc, out, err = sh([os.path.join(HARNESS, "build.sh"), hout, src] + (extra or []), env=env, timeout=300)
         if rc != 0:
             return None, (err or out)[-1500:]
         open(stamp, "w").write(fp)
-        return os.path.join(hout, scen), None
+        open(sstamp, "w").write(fp)
+        return exe, None
 
 
 def run_one(exe, seed, env_extra, timeout):
